@@ -20,7 +20,7 @@ from ..runner import Check, pmap
 PID = "C09"
 
 MATH = ["sqrt", "abs", "cos", "sin", "tan", "acos", "asin", "atan", "cosh", "sinh", "tanh", "power", "powerint", "exp", "ln", "erf", "atan2",
-        "min", "max", "bessel_j", "bessel_y", "real", "imag", "conj", "cliteral", "cconst", "conjarg", "realarg"]
+        "min", "max", "bessel_j", "bessel_y", "real", "imag", "conj", "cliteral", "cconst", "conjarg", "realarg", "clit-in-conj", "clit-in-conj2", "clit-trial", "cconst-in-conj"]
 
 
 def math_form(name, cell, arity):
@@ -44,7 +44,17 @@ def math_form(name, cell, arity):
         "bessel_j": lambda: ufl.bessel_J(2, re(f)), "bessel_y": lambda: ufl.bessel_Y(1, re(g)),
         "real": lambda: ufl.real(f * g) + 2.0, "imag": lambda: ufl.imag(f * (1.0 + 0.5j)) + g if True else g, "conj": lambda: ufl.conj(f) * g,
         "cliteral": lambda: (1.0 + 2.0j) * f, "cconst": lambda: k * ufl.conj(k) + k * f, "conjarg": lambda: f, "realarg": lambda: g,
-    }[name]()
+    }.get(name, lambda: None)()
+    if name in ("clit-in-conj", "clit-in-conj2", "clit-trial", "cconst-in-conj"):
+        # a complex literal / constant as the only factor of an argument inside (or outside) the conjugated slot of inner()
+        lit = {"clit-in-conj": 1j, "clit-in-conj2": (2.0 + 3.0j), "clit-trial": (2.0 - 1.0j), "cconst-in-conj": None}[name]
+        if name == "clit-trial":
+            core = {2: ufl.inner(lit * u, v), 1: ufl.inner(lit * f, v), 0: ufl.inner(lit * f, g)}[arity]
+        elif name == "cconst-in-conj":
+            core = {2: ufl.inner(u, k * v), 1: ufl.inner(f, k * v), 0: ufl.inner(f, k * g)}[arity]
+        else:
+            core = {2: ufl.inner(u, lit * v), 1: ufl.inner(f, lit * v), 0: ufl.inner(f, lit * g)}[arity]
+        return core * ufl.dx, mesh
     if name == "conjarg":
         core = {2: ufl.inner(u, v) + ufl.inner(ufl.conj(u) * 0 + u, v), 1: ufl.inner(g, v), 0: ufl.inner(f, g)}[arity]
     elif name == "realarg":
